@@ -384,7 +384,16 @@ def fam_ranges(rng, tier, i):
     lines = mk_lines(rng, p, n, shape=rng.choice(["edge", "mixed", "sparse", "jitter"]))
     if not lines:
         lines = mk_lines(rng, p, n, shape="jitter", base=5)
-    at_max = rng.random() < 0.2
+    edge = rng.random() < 0.2
+    if edge:
+        # a line stored at exactly full timestamp + 65534 (the last delta that fits), one just before it, and a later section:
+        # bounds at that edge must still find the line
+        t0 = rng.choice([0, 7, 2**32 + 1, 2**48 + 3, int(2 ** rng.uniform(1, 62))])
+        mid = sorted(set(t0 + d for d in rng.sample(range(1, 65533), rng.choice([0, 1, 3]))))
+        tail = t0 + 65534 + rng.choice([1, 2, 65534, 65535, 140000])
+        tss0 = [t0] + mid + [t0 + 65533, t0 + 65534, tail, tail + 1]
+        lines = [(t, payload(rng, p)) for t in tss0]
+    at_max = (not edge) and rng.random() < 0.2
     if at_max:
         # the last line sits exactly at 2^64-1: bounds at the top of the range meet a stored line
         d = U64 - 1 - lines[-1][0]
@@ -396,6 +405,10 @@ def fam_ranges(rng, tier, i):
         m = U64 - 1
         s += ["read_all e%d u" % m, "read_all e%d i%d" % (m, m), "read_first_n 1 e%d u" % m, "n_lines e%d u" % m,
               "read_all i%d u" % m, "read_all e%d u" % (m - 1), "read_all u e%d" % m, "n_lines i%d i%d" % (m, m)]
+    if edge:
+        e = t0 + 65534
+        s += ["read_all i%d u" % e, "read_all e%d u" % (e - 1), "read_first_n 1 i%d u" % e, "n_lines i%d i%d" % (e, e), "read_all i%d i%d" % (e, e),
+              "read_all u i%d" % e, "read_all u e%d" % (e + 1), "read_first_n 2 e%d u" % (e - 1), "n_lines e%d u" % (e - 1), "read_all i%d i%d" % (e - 1, e + 1)]
     for lo, hi in bounds_critical(rng, tss, 14 if tier == "quick" else 40):
         k = rng.random()
         if k < 0.45:
